@@ -252,13 +252,18 @@ class GFA:
             # edges_to_remove.append((n_id, 1, n_end[0], n_end[1], overlap))
             self.remove_edge((n_id, 1, n_end[0], n_end[1], overlap))
 
+        if "SN" in self.nodes[n_id].tags:
+            contig_nodes = self.contig_to_nodes[self.nodes[n_id].tags["SN"][1]]
+            if n_id in contig_nodes:
+                contig_nodes.remove(n_id)
         del self.nodes[n_id]
 
     def remove_edge(self, edge):
         n1, side1, n2, side2, overlap = edge
 
-        if edge in self.edge_tags:
-            del self.edge_tags[edge]
+        # the tags of a link are stored under (node, side, node, side) of the end that declared it
+        self.edge_tags.pop((n1, side1, n2, side2), None)
+        self.edge_tags.pop((n2, side2, n1, side1), None)
 
         if side1 == 0:
             self.nodes[n1].remove_from_start(n2, side2, overlap)
